@@ -37,7 +37,7 @@ theorem pushBackMove_post {cfg : Cfg} {Ok : VB → Prop} (L : VecLaws α cfg Ok)
         have hst3 := hw'.store.set hb3 (by simp; omega) hk3
         refine ⟨Or.inl ⟨hr4, _, VRepW.commit (xs' := xs ++ [v]) (by simpa using hst3) hl.1 hl.2.2.2 hl.2.2.1
           (by rw [hl.2.1, hw'.size]; simp)⟩, ?_⟩
-        exact (hfr.elem hreg (hw'.isSome (by omega)) hb3 hk3).withWs _
+        exact (hfr.elem hreg (hw'.isSome (by omega)) hb3 hk3).withWs _ hws3 hl.2.2.2 hl.2.2.1
       · rintro e m3 ⟨he, _⟩; cases he
     · cases he
   · rintro e m1 ⟨hq, hfr⟩
@@ -50,14 +50,14 @@ theorem pushBackMove_post {cfg : Cfg} {Ok : VB → Prop} (L : VecLaws α cfg Ok)
 theorem setSize_commit {cfg : Cfg} {Ok : VB → Prop} (L : VecLaws α cfg Ok) {m0 m : Mem α} {r0 : Region} {c : Nat} {w : VB}
     {xs' : List α} (s : Nat) (hs : s = xs'.length)
     (hst : Store cfg Ok c m w (lives xs' ++ raws (cfg.ops.capacity w - xs'.length))) (hle : xs'.length ≤ cfg.ops.capacity w)
-    (hfr : FrameG c r0 m0 m) :
-    Post (setSize cfg c s) m (fun res m' => (res = .ok () ∧ VRep cfg Ok c m' xs') ∧ FrameG c r0 m0 m') := by
+    (hfr : FrameL cfg c r0 m0 m) :
+    Post (setSize cfg c s) m (fun res m' => (res = .ok () ∧ VRep cfg Ok c m' xs') ∧ FrameL cfg c r0 m0 m') := by
   subst hs
   have hb := L.size.bounds w hst.ok
   refine Post.mono (setSize_post cfg m c w xs'.length hst.ws (by omega)) ?_
   rintro res m' ⟨hr, rfl⟩
   have hl := L.size.setSize w hst.ok xs'.length hle
-  exact ⟨⟨hr, _, VRepW.commit hst hl.1 hl.2.2.2 hl.2.2.1 hl.2.1⟩, hfr.withWs _⟩
+  exact ⟨⟨hr, _, VRepW.commit hst hl.1 hl.2.2.2 hl.2.2.1 hl.2.1⟩, hfr.withWs _ hst.ws hl.2.2.2 hl.2.2.1⟩
 
 theorem movedSlot_okAlive (c : Cat) (v : α) : okAlive c (movedSlot c v) := by
   refine Or.inl ?_
@@ -67,9 +67,9 @@ theorem movedSlot_okAlive (c : Cat) (v : α) : okAlive c (movedSlot c v) := by
 theorem popBack_core {cfg : Cfg} {Ok : VB → Prop} (L : VecLaws α cfg Ok) {m0 : Mem α} {r0 : Region} (m : Mem α) (c : Nat)
     (ys : List α) (s : Slot α) (w : VB)
     (hst : Store cfg Ok c m w (lives ys ++ s :: raws (cfg.ops.capacity w - (ys.length + 1))))
-    (hsz : cfg.ops.size w = ys.length + 1) (hs : okAlive m.cat s) (hfr : FrameG c r0 m0 m)
+    (hsz : cfg.ops.size w = ys.length + 1) (hs : okAlive m.cat s) (hfr : FrameL cfg c r0 m0 m)
     (hreg : regionOf cfg c w = r0 ∨ ∃ id, regionOf cfg c w = .blk id ∧ m0.nextId ≤ id) :
-    Post (popBack cfg c) m (fun res m' => (res = .ok () ∧ VRep cfg Ok c m' ys) ∧ FrameG c r0 m0 m') := by
+    Post (popBack cfg c) m (fun res m' => (res = .ok () ∧ VRep cfg Ok c m' ys) ∧ FrameL cfg c r0 m0 m') := by
   have hlen := hst.len
   simp only [List.length_append, List.length_cons, lives_length, raws_length] at hlen
   have hcap : ys.length + 1 ≤ cfg.ops.capacity w := by omega
@@ -93,7 +93,7 @@ theorem popBack_core {cfg : Cfg} {Ok : VB → Prop} (L : VecLaws α cfg Ok) {m0 
     rw [← raws_succ_sub _ _ hcap] at hb3
     have hst3 := hst.set hb3 (by simp; omega) hk3
     refine ⟨⟨hr4, _, VRepW.commit hst3 hl.1 hl.2.2.2 hl.2.2.1 (by omega)⟩, ?_⟩
-    exact (hfr.elem hreg (by rw [hbuf]; rfl) hb3 hk3).withWs _
+    exact (hfr.elem hreg (by rw [hbuf]; rfl) hb3 hk3).withWs _ hws3 hl.2.2.2 hl.2.2.1
   · rintro e m3 ⟨he, _⟩; cases he
 
 /-- the storage of a non-empty container, with the last element singled out -/
@@ -113,7 +113,7 @@ theorem popBack_post {cfg : Cfg} {Ok : VB → Prop} (L : VecLaws α cfg Ok) (m :
   generalize xs.getLast hne = y at hx
   subst hx
   refine Post.mono (popBack_core L m c ys (.live y) w h.store_snoc (by rw [h.size]; simp) (Or.inl (by simp))
-    (FrameG.refl _ _ _) (Or.inl rfl)) ?_
+    (FrameL.refl _ _ _ _) (Or.inl rfl)) ?_
   rintro res m' ⟨hq, hfr⟩
   exact ⟨Or.inl hq, hfr⟩
 
@@ -149,8 +149,8 @@ theorem popBackVal_post {cfg : Cfg} {Ok : VB → Prop} (L : VecLaws α cfg Ok) (
     · rintro _ m5 ⟨_, hs5⟩
       have hst4 := hst.set hb4 (by simp) hk4
       have hst5 := hst4.same hs5
-      have hfr5 : FrameG c (regionOf cfg c w) m3 m5 :=
-        ((FrameG.refl c _ m3).elem (Or.inl rfl) (by rw [hbuf]; rfl) hb4 hk4).same hs5
+      have hfr5 : FrameL cfg c (regionOf cfg c w) m3 m5 :=
+        ((FrameL.refl cfg c _ m3).elem (Or.inl rfl) (by rw [hbuf]; rfl) hb4 hk4).same hs5
       have hcat : m5.cat = m3.cat := hs5.2.cat.trans hk4.cat
       refine Post.bind (popBack_core L m5 c ys (movedSlot m3.cat y) w hst5 (by rw [h.size]; simp)
         (by rw [hcat]; exact movedSlot_okAlive _ _) hfr5 (Or.inl rfl)) ?_ ?_
@@ -175,7 +175,7 @@ theorem truncate_core {cfg : Cfg} {Ok : VB → Prop} (L : VecLaws α cfg Ok) (m 
     refine Post.bind (Q1 := fun res m' => res = .ok () ∧ m' = m) ⟨rfl, rfl⟩ ?_ (by okerr)
     rintro _ m1 ⟨_, rfl⟩
     refine Post.mono (setSize_commit L (xs' := xs.take count) count hlt.symm (by rw [hx]; exact h.store) (by omega)
-      (FrameG.refl c (regionOf cfg c w) _)) ?_
+      (FrameL.refl cfg c (regionOf cfg c w) _)) ?_
     rintro res m' ⟨hq, hfr⟩
     exact ⟨Or.inl hq, hfr⟩
   · have hbuf : m.buf (regionOf cfg c w) = some (lives (xs.take count) ++ lives (xs.drop count)
@@ -191,7 +191,7 @@ theorem truncate_core {cfg : Cfg} {Ok : VB → Prop} (L : VecLaws α cfg Ok) (m 
         = cfg.ops.capacity w - (xs.take count).length by omega] at hb1
       have hst1 := h.store.set hb1 (by simp; omega) hk1
       refine Post.mono (setSize_commit L (xs' := xs.take count) count hlt.symm hst1 (by omega)
-        ((FrameG.refl c _ m).elem (Or.inl rfl) (h.isSome (by omega)) hb1 hk1)) ?_
+        ((FrameL.refl cfg c _ m).elem (Or.inl rfl) (h.isSome (by omega)) hb1 hk1)) ?_
       rintro res m' ⟨hq, hfr⟩
       exact ⟨Or.inl hq, hfr⟩
     · rintro e m1 ⟨he, _⟩; cases he
@@ -214,14 +214,14 @@ theorem clear_post {cfg : Cfg} {Ok : VB → Prop} (L : VecLaws α cfg Ok) (m : M
 theorem append_tail {cfg : Cfg} {Ok : VB → Prop} (L : VecLaws α cfg Ok) {m0 : Mem α} {r0 : Region} (m1 : Mem α) (c : Nat)
     (xs : List α) (w' : VB) (vals : List α) (act : Addr → M α Unit) (s : Nat)
     (hw' : VRepW cfg Ok c m1 xs w') (hcap : xs.length + vals.length ≤ cfg.ops.capacity w') (hs : s = xs.length + vals.length)
-    (hfr : FrameG c r0 m0 m1) (hreg : regionOf cfg c w' = r0 ∨ ∃ id, regionOf cfg c w' = .blk id ∧ m0.nextId ≤ id)
+    (hfr : FrameL cfg c r0 m0 m1) (hreg : regionOf cfg c w' = r0 ∨ ∃ id, regionOf cfg c w' = .blk id ∧ m0.nextId ≤ id)
     (hnil : vals = [] → ∀ a, Post (act a) m1 (fun res m' => res = .ok () ∧ m' = m1))
     (hact : ∀ post, m1.buf (regionOf cfg c w') = some (lives xs ++ raws vals.length ++ post) →
       Post (act ⟨regionOf cfg c w', (lives xs).length⟩) m1
         (BuiltOrRolledBack m1 (regionOf cfg c w') (lives xs ++ lives vals ++ post) (lives xs ++ raws vals.length ++ post))) :
     Post (do act (← vend cfg c); setSize cfg c s) m1
       (fun res m' => ((res = .ok () ∧ VRep cfg Ok c m' (xs ++ vals)) ∨ (∃ e, res = .error (.exc e) ∧ VRep cfg Ok c m' xs))
-        ∧ FrameG c r0 m0 m') := by
+        ∧ FrameL cfg c r0 m0 m') := by
   have hlen : s = (xs ++ vals).length := by rw [hs]; simp
   refine Post.bind (vend_post cfg m1 c w' hw'.ws) ?_ (by okerr)
   rintro a m2 ⟨ha, rfl⟩; injection ha with ha; subst ha
@@ -409,7 +409,7 @@ theorem reserve_post {cfg : Cfg} {Ok : VB → Prop} (L : VecLaws α cfg Ok) (m :
     · rw [if_pos hlt]
       exact Post.mono (L.grow hd m1 c xs w n true h hf hlt (fun _ => hn)) (fun _ _ hq => hq.strong)
     · rw [if_neg hlt]
-      exact ⟨Or.inl ⟨rfl, w, h⟩, FrameG.refl _ _ _⟩
+      exact ⟨Or.inl ⟨rfl, w, h⟩, FrameL.refl _ _ _ _⟩
   · rw [if_neg hd]
     exact Post.mono (adjustCapacity_post L m c xs w n h hf) (fun _ _ hq => hq.strong)
 
